@@ -12,7 +12,7 @@ from ..pools import pick
 
 ID = "C06"
 LEVEL = "fault_enumeration"
-RUNS = {"quick": 1400, "thorough": 10500}
+RUNS = {"quick": 2800, "thorough": 21000}
 REQUIRED_FAULTS = ["F2.invalid_value_dump"]
 MACHINES = FORMATS
 
